@@ -43,10 +43,6 @@ def route_kwargs(e: C.Entry):
         kw["tpIdx"] = 0
     if (e.mode, e.key) == (SET, "RXM-PMREQ"):
         kw["version"] = 0
-    if (e.mode, e.key) == (SET, "TIM-VCOCAL-V0"):
-        kw["type"] = 0
-    if (e.mode, e.key) == (SET, "TIM-VCOCAL"):
-        kw["type"] = 2
     return kw
 
 
